@@ -108,8 +108,10 @@ def families(w, tier):
                                                          [0, 5 * w, 11 * w], [4 * w, 8 * w + 1, 8 * w]],
                         {4: 0, 5: m, 10: m ^ 1, 11: m}, 8)
     # a slice of C01's single-segment images through every storage knob
+    # (the thorough tier used an 11-value alphabet here: 14 641 images x ~30 knob variants x 3 widths did not finish in 2.5 h on a
+    #  shared box; the complete one4 / one6 spaces are C01's job, the knob product is what this check adds)
     sub = [0, 1, dw, dw + 1, w + 1, 3 * w, 4 * w - 1, 4 * w] if tier != 'thorough' else \
-        [0, 1, dw, dw + 1, w + 1, 3 * w, 4 * w - 1, 4 * w, 3 * w + w.bit_length(), dw + w - 1, w]
+        [0, 1, dw, dw + 1, w + 1, 3 * w, 4 * w - 1, 4 * w, 3 * w + w.bit_length()]
     fam['one4'] = ([(0, 4)], [0, 1, 2, 3], [sub] * 4, {}, 4)
     return fam
 
